@@ -12,7 +12,9 @@ import os
 import pathlib
 import random
 import shutil
+import stat
 import tempfile
+import threading
 import types
 
 import common
@@ -128,9 +130,22 @@ def generate():
 # scratch directory (outside /repo and /verif), contents, exceptions
 
 class Scratch:
+    """Private scratch space of this process, outside /repo and /verif, removed at the end.  Two directories made
+    by mkdtemp (so the eleven children of the ambient sweep and the main run can never collide): `disk` on the
+    file system of the default temporary directory, and `root` on tmpfs (/dev/shm) where that exists - directory
+    operations there are ~15x cheaper, which is what the sequence / write_to_tempfile / checksum families need.
+    The path-kind families (make_path) and every eighth call sequence stay on the disk file system."""
+
     def __enter__(self):
-        # one private directory per process (mkdtemp), so the children of the ambient sweep cannot collide
-        self.root = tempfile.mkdtemp(prefix='verif-C20-%s-' % (os.environ.get('VERIF_AMBIENT') or 'main'))
+        prefix = 'verif-C20-%s-' % (os.environ.get('VERIF_AMBIENT') or 'main')
+        self.disk = tempfile.mkdtemp(prefix=prefix)
+        self.root = self.disk
+        shm = '/dev/shm'
+        if os.path.isdir(shm) and os.access(shm, os.W_OK | os.X_OK):
+            try:
+                self.root = tempfile.mkdtemp(prefix=prefix, dir=shm)
+            except OSError:
+                pass
         self.files = {}
         self.n = 0
         self.locked = []
@@ -143,11 +158,12 @@ class Scratch:
                 os.chmod(d, 0o700)
             except OSError:
                 pass
-        shutil.rmtree(self.root, ignore_errors=True)
+        for d in {self.root, self.disk}:
+            shutil.rmtree(d, ignore_errors=True)
 
-    def fresh(self, name='p'):
+    def fresh(self, name='p', disk=False):
         self.n += 1
-        return os.path.join(self.root, '%s%d' % (name, self.n))
+        return os.path.join(self.disk if disk else self.root, '%s%d' % (name, self.n))
 
     def file(self, data, key=None):
         key = key if key is not None else hashlib.sha1(data).hexdigest()
@@ -418,9 +434,9 @@ def impl_checksum(sc, case):
     path = as_ptype(path, case.get('ptype'))
     alg = case['alg']
     cs = case['cs']
-    many = isinstance(cs, int) and cs > 0 and case['size'] // cs > 2000
+    many = isinstance(cs, int) and cs > 0 and case['size'] // cs > 300
     # time.sleep(0) (the greenthread yield, line 130) costs ~75 us per chunk in this sandbox: for runs of more than
-    # 2000 chunks it is replaced by a no-op inside the harness process; shorter runs execute it for real
+    # 300 chunks it is replaced by a no-op inside the harness process; shorter runs execute it for real
     nosleep = patched(fu, 'time', types.SimpleNamespace(sleep=lambda s: None)) if many else contextlib.nullcontext()
     with nosleep:
         return _impl_checksum(fu, path, alg, case)
@@ -497,6 +513,12 @@ def gen_checksum(ctx):
     kmax = 3 if ctx.quick else 5
     by = checksum_sizes(kmax)
     sizes = sorted({s for v in by.values() for s in v})
+    if getattr(ctx, 'ambient', None):
+        # a child of the ambient sweep: a third of the large contents (model and file cost is per content), always
+        # one exact multiple of 65536 among them
+        large = [s for s in sizes if s > 3 * 4096 + 1]
+        chosen = set(rng.sample(large, max(1, len(large) // 3)) + [rng.choice([s for s in large if s % 65536 == 0])])
+        sizes = [s for s in sizes if s <= 3 * 4096 + 1 or s in chosen]
     out = []
     ai = 0
     for s in sizes:
@@ -666,7 +688,7 @@ SP_SUFFIXES = ('dotdot', 'dotdot-leaf', 'dotdot-deep', 'dot', 'dot-leaf', 'slash
 def spelled_path(sc, anchor, suffix, depth):
     """<root>/w/<anchor><suffix>: a legal path that is not in lexical normal form, whose '..', '.', '//' or trailing
     slash follows a missing chain, a regular file, a directory, a symlink to a directory or a dangling symlink"""
-    root = sc.fresh('s')
+    root = sc.fresh('s', disk=True)
     w = os.path.join(root, 'w')
     os.makedirs(w)
     ups = 1
@@ -705,13 +727,24 @@ def spelled_path(sc, anchor, suffix, depth):
 
 
 def tree(root):
-    """every entry below root: (relative name, d/f/l)"""
+    """every entry below root: (relative name, d<permission bits>/f/l)"""
     out = []
-    for dirpath, dirs, files in os.walk(root):
-        for n in dirs + files:
-            full = os.path.join(dirpath, n)
-            out.append((os.path.relpath(full, root),
-                        'l' if os.path.islink(full) else 'd' if os.path.isdir(full) else 'f'))
+    stack = [(root, '')]
+    while stack:
+        d, rel = stack.pop()
+        try:
+            entries = list(os.scandir(d))
+        except OSError:
+            continue
+        for e in entries:
+            name = rel + e.name
+            if e.is_symlink():
+                out.append((name, 'l'))
+            elif e.is_dir(follow_symlinks=False):
+                out.append((name, 'd%o' % stat.S_IMODE(e.stat(follow_symlinks=False).st_mode)))
+                stack.append((e.path, name + os.sep))
+            else:
+                out.append((name, 'f'))
     return sorted(out)
 
 
@@ -720,7 +753,7 @@ def make_path(sc, kind, depth=1):
     if kind.startswith('sp:'):
         _, anchor, suffix = kind.split(':')
         return spelled_path(sc, anchor, suffix, depth)
-    p = sc.fresh('d')
+    p = sc.fresh('d', disk=True)
     if kind == 'dir':
         os.makedirs(p)
     elif kind == 'file':
@@ -728,6 +761,14 @@ def make_path(sc, kind, depth=1):
             f.write(b'x')
     elif kind == 'missing':
         p = os.path.join(p, *['n%d' % i for i in range(depth - 1)]) if depth > 1 else p
+    elif kind.startswith('dir-mode-'):                          # an existing directory with unusual permission bits
+        root = p
+        os.makedirs(root)
+        p = os.path.join(root, 'there')
+        os.makedirs(p)
+        os.chmod(p, int(kind[len('dir-mode-'):], 8))
+        sc.roots[p] = root                                      # the twin comparison then includes the mode
+        sc.locked.append(p)
     elif kind == 'symlink-dir':
         os.makedirs(p + '.target')
         os.symlink(p + '.target', p)
@@ -1137,6 +1178,8 @@ def gen_fs(ctx):
         out.append(({'op': 'fs_ensure', 'kind': 'missing', 'depth': d}, 'fs/ensure/missing-depth'))
     for k in PLAIN_KINDS[1:] + ('missing-trailing-slash',) + ERROR_KINDS:
         out.append(({'op': 'fs_ensure', 'kind': k}, 'fs/ensure/' + k))
+    for mode in ('700', '1777', '555', '0', '2750'):
+        out.append(({'op': 'fs_ensure', 'kind': 'dir-mode-' + mode}, 'fs/ensure/existing-dir-mode'))
     for k in PLAIN_KINDS + ERROR_KINDS:
         for rm in ('default', 'direct', 'unlink', 'rmdir', 'rmtree'):
             out.append(({'op': 'fs_delete', 'kind': k, 'remove': rm}, 'fs/delete/%s/%s' % (rm, k)))
@@ -1223,6 +1266,9 @@ def oracle_tempfile(sc, case):
             with open(os.path.join(target, (prefix or 'tmp') + 'old%d' % i + (suffix or '')), 'wb') as f:
                 f.write(b'old%d' % i)
     before = {n: open(os.path.join(target, n), 'rb').read() for n in os.listdir(target)} if os.path.isdir(target) else {}
+    if case.get('dirmode') and os.path.isdir(target):
+        os.chmod(target, int(case['dirmode'], 8))
+    mode_before = stat.S_IMODE(os.stat(target).st_mode) if os.path.isdir(target) else None
     made = []
     cwd = os.getcwd()
     with patched(tempfile, 'tempdir', base):                    # path=None / '' must not leak outside the scratch dir
@@ -1252,6 +1298,9 @@ def oracle_tempfile(sc, case):
     made = [os.path.join(base, os.fsdecode(p)) for p in made]
     if not os.path.isdir(target):
         return 'directory %s was not created' % where
+    if mode_before is not None and stat.S_IMODE(os.stat(target).st_mode) != mode_before:
+        return 'the existing directory had mode %o, after write_to_tempfile it has %o' % (
+            mode_before, stat.S_IMODE(os.stat(target).st_mode))
     if made[0] == made[1]:
         return 'two calls returned the same path'
     for p in made:
@@ -1288,6 +1337,9 @@ def gen_tempfile(ctx):
         for size in chunk_multiple_sizes(ctx):
             out.append({'op': 'tempfile', 'size': size, 'seed': 6, 'where': 'existing', 'depth': 0,
                         'prefix': None, 'suffix': None, 'ctype': ctype})
+    for mode in ('700', '1777', '2750'):                         # an existing directory keeps its permission bits
+        out.append({'op': 'tempfile', 'size': 9, 'seed': 6, 'where': 'existing', 'depth': 0, 'prefix': None,
+                    'suffix': None, 'dirmode': mode})
     for where in TEMP_WHERE_SPELLINGS:                           # directory arguments not in normal form
         for depth in (1, 2, 4) if ctx.quick else range(1, 9):
             out.append({'op': 'tempfile', 'size': 9, 'seed': 6, 'where': where, 'depth': depth,
@@ -1516,7 +1568,8 @@ SEQ_STEPS = ('W:D1', 'W:D2', 'E:D1', 'X:D1', 'R:D1', 'R:D2', 'F:D1', 'F:D3', 'T:
 def run_seq(sc, case):
     """-> list of records {'step', 'res', 'line' (model request), 'problem' (property oracle)} for the API calls"""
     fu = fileutils()
-    rp, rq = sc.fresh('q'), sc.fresh('q')
+    on_disk = sum(map(len, case['steps'])) % 8 == 0 or bool(case.get('disk'))
+    rp, rq = sc.fresh('q', on_disk), sc.fresh('q', on_disk)
     tag = os.path.basename(rp)                                  # makes the path strings of this sequence unique
     for r in (rp, rq):
         for c in ('A', 'B'):
@@ -1702,7 +1755,7 @@ def gen_seq(ctx, full=False, search=False):
                 if rel and 'C' not in steps and n == maxlen and ctx.quick and rng.random() < 0.5:
                     continue
                 out.append(({'op': 'seq', 'steps': list(steps), 'rel': rel}, 'seq/exhaustive<=%d%s' % (maxlen, '/relative' if rel else '')))
-    for _ in range((400 if ctx.quick else 6000) * (3 if full else 1)):
+    for _ in range((250 if ctx.quick else 6000) * (3 if full else 1)):
         n = rng.randrange(4, 10)
         steps = [rng.choice(SEQ_STEPS + ('W:D1', 'W:D1', 'R:D1')) for _ in range(n)]
         out.append(({'op': 'seq', 'steps': steps, 'rel': rng.random() < 0.4}, 'seq/random-long'))
@@ -1738,6 +1791,9 @@ def oracle(sc, case):
     return ORACLE[case['op']](sc, case)
 
 
+PRECOMPUTED = {}
+
+
 def compare(ctx, sc, case, tag, reply, out):
     """one correspondence case: implementation vs model reply"""
     op = case['op']
@@ -1749,7 +1805,9 @@ def compare(ctx, sc, case, tag, reply, out):
         ctx.count('fs/' + impl.split('|')[0].split(' (')[0].split(':')[0])
         ctx.nontrivial(tuple(sorted(case.items())))
         return impl, model, seen
-    impl = IMPL[op](sc, case)
+    impl = PRECOMPUTED.pop(id(case), None) if op == 'checksum' else None
+    if impl is None:
+        impl = IMPL[op](sc, case)
     model = view_checksum(case, reply) if op == 'checksum' else reply
     head = impl.split(' (')[0]
     ctx.count('%s/%s' % (op, 'ok' if head.startswith(('ok', 'returned')) else
@@ -1801,10 +1859,10 @@ def _features(case, tag=None):
 
 
 KEEP_SPECS = ('ok', 'os:%d' % errno.ENOENT, 'os:%d' % errno.EEXIST, 'os:%d' % errno.EINVAL, 'os:N')
-AMBIENT_FRACTION = 0.3
+AMBIENT_FRACTION = 0.2
 
 
-def thin(ctx, items):
+def thin(ctx, items, fraction=None):
     """Main run: everything.  In a child of the ambient sweep (ctx.ambient set) about one third: a random part
     (ctx.rng is seeded with the configuration name, so the children together still cover the list), topped up until
     every generator family, operation, path kind, content type, path type, remover, algorithm, chunk argument,
@@ -1814,7 +1872,7 @@ def thin(ctx, items):
     feats = [_features(*(it if isinstance(it, tuple) else (it, None))) for it in items]
     order = list(range(len(items)))
     ctx.rng.shuffle(order)
-    n = int(len(items) * AMBIENT_FRACTION)
+    n = int(len(items) * (fraction or AMBIENT_FRACTION))
     keep = set(order[:n])
     have = {f for i in keep for f in feats[i]}
     for i in order[n:]:
@@ -1836,7 +1894,27 @@ def correspondence(ctx):
         pending, volume = [], 0
 
         def flush():
-            replies = ctx.driver.ask_many([line_checksum(dict(g, cs=','.join(css))) for g, css in pending])
+            # the model driver works on the large contents in a thread of its own while the implementation side runs
+            lines = [line_checksum(dict(g, cs=','.join(css))) for g, css in pending]
+            box = {}
+
+            def ask():
+                try:
+                    box['replies'] = ctx.driver.ask_many(lines)
+                except BaseException as e:
+                    box['error'] = e
+            th = threading.Thread(target=ask)
+            th.start()
+            try:
+                for g, css in pending:
+                    for cs in css:
+                        for case, _ in groups_of[id(g)][cs]:
+                            PRECOMPUTED[id(case)] = IMPL['checksum'](sc, case)
+            finally:
+                th.join()
+            if 'error' in box:
+                raise box['error']
+            replies = box['replies']
             for (g, css), rep in zip(pending, replies):
                 parts = rep.split(';')
                 if len(parts) != len(css):
@@ -1893,7 +1971,7 @@ def correspondence(ctx):
                                         where='decision on the outcome of the real OS call'))
         # 6 (run first, before the bulk of part 5). call sequences: every API call of every sequence against the model
         seqs = []
-        for case, tag in thin(ctx, gen_seq(ctx)):
+        for case, tag in thin(ctx, gen_seq(ctx), 0.12):
             recs = run_seq(sc, case)
             ctx.evaluations += 1
             ctx.count('corr/' + tag)
@@ -1966,7 +2044,7 @@ def gen_search(ctx, full):
     rng = ctx.rng
     cases = []
     # checksum: whole-file digest, chunk sizes around the file size and around divisors of it
-    n = (1500 if ctx.quick else 15000) * (4 if full else 1)
+    n = (800 if ctx.quick else 15000) * (4 if full else 1)
     for _ in range(n):
         cs = rng.choice(CHUNKS + [3, 5, 100, 1000, rng.randrange(1, 5000)])
         if cs >= 4096 and rng.random() < 0.6:
